@@ -62,6 +62,18 @@ class Path:
         (local names not substituted)."""
         return [('' if pol else 'not ') + norm(o if orig and isinstance(o, ast.expr) else t) for t, pol, o in self.conds]
 
+    def fact_keys(self, orig=True):
+        """Canonical fact keys (cfg.Fact.key) implied by the branch conditions of the path."""
+        from .cfg import implied
+        out = set()
+        for t, pol, o in self.conds:
+            node = o if (orig and isinstance(o, ast.expr)) else t
+            if not isinstance(node, ast.expr):
+                continue
+            for f in implied(node, pol):
+                out.add(f.key())
+        return out
+
     def calls(self, pred=None):
         return [e for e in self.events if e.kind == 'call' and (pred is None or pred(e.node))]
 
